@@ -22,6 +22,7 @@ IsEvent(name) == l <= Len(Traces[tid].events) /\ Ev.act = name /\ l' = l + 1 /\ 
 (* the logged register is compared as a rational quaternion (the log is not reduced) *)
 Logged == /\ ScaleQ(Ev.den, num') = ScaleQ(den', Tup4(Ev.num))
           /\ ord' = Ev.ord
+          /\ NonZero'      \* invariant as a guard (TLC would stop the whole batch at a violated INVARIANT)
 
 TMulRight == IsEvent("MulRight") /\ MulRight(Ev.route, Tup4(Ev.v)) /\ Logged
 TMulLeft  == IsEvent("MulLeft")  /\ MulLeft(Ev.route, Tup4(Ev.v))  /\ Logged
